@@ -1186,8 +1186,13 @@ def _inline_type_field(location, name, abbreviation, body):
         ir_data_utils.builder(body.structure).source_location = body.source_location
     ir_data_utils.builder(body).name.CopyFrom(type_name)
     field.source_location = parser_types.merge_source_locations(location, body)
-    subtypes = [body] + list(body.subtype)
+    # Named types nested in an inline type are hoisted next to it.  The types of
+    # anonymous `bits` fields stay with the structure that holds the field: their
+    # alias fields are synthesized by looking the type up there.
+    anonymous_subtypes = [t for t in body.subtype if t.name.is_anonymous]
+    subtypes = [body] + [t for t in body.subtype if not t.name.is_anonymous]
     del body.subtype[:]
+    body.subtype.extend(anonymous_subtypes)
     return _FieldWithType(field=field_ir, subtypes=subtypes)
 
 
